@@ -477,6 +477,12 @@ impl Connection {
                     header.sequence_id, header.fragment_id, header.fragment_id
                 );
 
+                if header.fragment_id == 0 {
+                    return Err(Error::Protocol(
+                        "fragment header with fragment id 0 (ids count down to 1)".to_string(),
+                    ));
+                }
+
                 // What follows the fragment header is the rest of a distribution header (flags and
                 // atom cache references) and the beginning of the message. Put the version tag, the
                 // DIST_HEADER tag and the reference count back in front of it, so that the
@@ -505,6 +511,13 @@ impl Connection {
                     "Fragment continuation: seq={}, frag={}",
                     sequence_id, fragment_id
                 );
+
+                if fragment_id == 0 {
+                    return Err(Error::Protocol(
+                        "fragment continuation with fragment id 0 (ids count down to 1)"
+                            .to_string(),
+                    ));
+                }
 
                 if let Some(complete_data) = self.fragment_assembler.add_fragment(
                     sequence_id,
